@@ -24,6 +24,7 @@ from xml.etree import ElementTree as ET
 from xsdata.formats.dataclass.context import XmlContext
 from xsdata.formats.dataclass.models.generics import AnyElement, DerivedElement
 from xsdata.formats.dataclass.parsers import DictDecoder, JsonParser, XmlParser
+from xsdata.formats.dataclass.parsers.config import ParserConfig
 from xsdata.formats.dataclass.parsers.handlers import XmlEventHandler
 from xsdata.formats.dataclass.serializers import DictEncoder, JsonSerializer, XmlSerializer
 
@@ -147,7 +148,8 @@ def define(d, mod, names):
 
 def new_module(name):
     mod = types.ModuleType(name)
-    exec("from dataclasses import dataclass, field\nfrom typing import List, Optional, Union\n", mod.__dict__)
+    exec("from dataclasses import dataclass, field\nfrom typing import List, Optional, Union\n"
+         "from xsdata.models.datatype import XmlDate\n", mod.__dict__)
     return mod
 
 
@@ -173,6 +175,14 @@ def to_obj(v):
     if k == "der":
         return DerivedElement(qname=v[1], type=v[2], value=to_obj(v[3]))
     raise KeyError(k)
+
+
+def py_literal(x):
+    tag, v = x
+    if tag == "d":
+        from xsdata.models.datatype import XmlDate
+        return XmlDate.from_string(v)
+    return {"s": str, "i": int, "f": float, "b": bool}[tag](v)
 
 
 def tree_of_obj(o):
@@ -280,6 +290,7 @@ class Instances:
         self.jp = JsonParser(context=self.ctx)
         self.js = JsonSerializer(context=self.ctx)
         self.dd = DictDecoder(context=self.ctx)
+        self.dds = DictDecoder(context=self.ctx, config=ParserConfig(fail_on_converter_warnings=True))   # strict
         self.de = DictEncoder(context=self.ctx)
 
 
@@ -303,6 +314,12 @@ def run_op(inst, op):
             return {"ok": tree_of_obj(inst.dd.decode(op["data"], clz(op["clazz"])))}
         if k == "jparse":
             return {"ok": tree_of_obj(inst.jp.from_string(json.dumps(op["data"]), clz(op["clazz"])))}
+        if k in ("oser", "ojser"):
+            # a value given literally (not obtained by parsing): [[field, [[tag, literal], ...]], ...]
+            obj = clz(op["clazz"])(**{f: [py_literal(x) for x in items] for f, items in op["fields"]})
+            return {"ok": ["x:" + (inst.xs if k == "oser" else inst.js).render(obj), []]}
+        if k in ("odec", "odecs"):
+            return {"ok": ["x:" + repr((inst.dd if k == "odec" else inst.dds).decode(op["data"], clz(op["clazz"]))), []]}
         if k == "oparse":
             p = inst.xn if op.get("handler") == "native" else inst.xp
             return {"ok": ["x:" + repr(p.from_string(op["doc"], clz(op["clazz"]))), []]}
